@@ -89,7 +89,7 @@ def phase_a(seed, tier, i, st):
     cfg = rng.stream(NAME, tier, seed, i, "config")
     n, pairs = oracles.pairs_of_triples(st["triples"])
     knotted = oracles.is_knotted(pairs)
-    base = {"triples": st["triples"], "op": "dot_bracket"}
+    base = {"triples": st["triples"], "op": "dot_bracket", "route": cfg.choice(solve_engine.ROUTES)}
     loglevel = cfg.choice(["off", "off", "INFO", "DEBUG"])
     if st["family"].startswith("nearladder"):
         steps = [dict(base, via=cfg.choice(["property", "argument"]), backend="real-cbc", fault={"kind": "ok"})]
@@ -124,7 +124,7 @@ def phase_a(seed, tier, i, st):
         # so it is asked last.
         first = cfg.choice([("none", "ok"), ("sim-api", "raise_before"), ("sim-api", "status_infeasible"),
                             ("cbc-wrapper", "no_sol_file"), ("highs-wrapper", "timelimit_no_solution")])
-        obj = {"triples": st["triples"], "op": "dot_bracket", "object": "same"}
+        obj = {"triples": st["triples"], "op": "dot_bracket", "object": "same", "route": base["route"]}
         steps.append(dict(obj, via="argument", backend=first[0], fault={"kind": first[1], "assign": "full", "tie": 0},
                           unjudged=True))
         steps.append(dict(obj, via="argument", backend=cfg.choice(["sim-api", "cbc-wrapper"]),
@@ -284,6 +284,8 @@ def shrink_candidates(run, v):
         yield _with_step(run, focus, dict(step, backend="sim-api"))
     if step.get("via") == "property":
         yield _with_step(run, focus, dict(step, via="argument"))
+    if step.get("route", "entries") != "entries":
+        yield _with_step(run, focus, dict(step, route="entries"))
     if step.get("fault", {}).get("tie"):
         yield _with_step(run, focus, dict(step, fault=dict(step["fault"], tie=0)))
     if run.get("loglevel", "off") != "off":
